@@ -40,9 +40,16 @@ CHFILES = ["drf_properties.h5", "dmd_properties.h5", "metadata.h5", "tmp.drf_pro
 
 
 def kind_of(fn):
-    """Which kind of channel the scratch tree gives this file."""
+    """Which kind of channel the scratch tree gives this file: decided by the stamp format (name@secs.h5 is a
+    metadata-style name, name@secs.mmm.h5 an RF-style name), for property files by their name."""
     base = fn[4:] if fn.startswith("tmp.") else fn
-    if base.startswith(("md@", "metadata@", "dmd_")):
+    if base.startswith("dmd_"):
+        return "dmd"
+    if "@" in base and base.endswith(".h5"):
+        stamp = base.rsplit("@", 1)[1][:-3]
+        if stamp.isdigit() and stamp.isascii():
+            return "dmd"
+    if base.startswith(("md@", "metadata@")):
         return "dmd"
     return "rf"
 
@@ -226,8 +233,7 @@ def _cases(draw):
         ext = draw(st.sampled_from([".h5", ".h5", ".h5", ".hdf5", ".h5.tmp", ""]))
         fn = "%s@%s%s%s" % (prefix, secs, frac, ext)
         sub = draw(st.sampled_from([SUB_OK, SUB_OK, SUB_OK, None, "2023-11-14T22-13-2", "x2023-11-14T22-13-20", "2023-11-14t22-13-20x"]))
-        ch = draw(st.sampled_from(["chrf", "chdmd", "chrf", "chdmd"]))
-        return [ch, sub, fn]
+        return ["ch" + kind_of(fn), sub, fn]  # always inside a channel of the file's own kind
 
     return {"paths": [one() for _ in range(draw(st.integers(2, 3)))],
             "flags": list(draw(st.sampled_from(FLAGS))), "win": list(draw(st.sampled_from(WINDOWS)))}
